@@ -159,6 +159,10 @@ Section Inv.
     i_ret : (exists r, rpc s = RRet r) \/ rpc s = RDone ->
             (fsm_st s = FError \/ fsm_st s = FStopped) /\ holder s = None /\
             forall j sv, nth_error (servers s) j = Some sv -> s_shut sv = true;
+    (* Run between r.mutex.Unlock() and Transition(Stopped): nothing is left to stop, nobody can start a Reload *)
+    i_stopdone : forall r, rpc s = RStopDone r ->
+                 fsm_st s <> FRunning /\ holder s = None /\
+                 forall j sv, nth_error (servers s) j = Some sv -> s_shut sv = true;
     i_live : forall j, unshut s j -> server s = Some j /\ once_done s = false;
     i_srv : forall j, server s = Some j -> exists sv, nth_error (servers s) j = Some sv;
     i_wantboot : kpc s = KWantBoot -> server s = None;
